@@ -568,8 +568,7 @@ def input_sexp(en):
                 mid = ["e", Q(sp["ety"]) if sp.get("ety") else "-"]
             specs.append(["s", ["n"] + [Q(n) for n in sp["names"]], mid, ["v"] + [str(v) for v in vals]])
         blocks.append(["b"] + specs)
-    ty = ["type", Q(en["T"]), "s" if s else "u", str(b)] + (["int"] if en["kind"] == "int" else [])
-    return [ty, ["blocks"] + blocks]
+    return [["type", Q(en["T"]), "s" if s else "u", str(b)], ["blocks"] + blocks]
 
 
 def case_sexp(cid, area, en, extra):
